@@ -3,6 +3,7 @@
 (*  {tid, classes:[name |-> class record], events:[...]}                                            *)
 (*   provided  : c, n, terms   - what a recording provider handed to the rule (must be the truth:   *)
 (*               this validates the harness, a mismatch is reported as FIXTURE, not as a violation)  *)
+(*   kept      : c, n, terms   - the same provider object after the rule used it                     *)
 (*   formterms : form, c (the form's parent), n, terms - computed by the rule form from providers    *)
 (*   reads     : form, level, shifts, reqs, selfreqs  - what the computation of `level` asked for    *)
 (*   objects   : c, n, objs = <<<<params, <<words>>>>>>, terms - objects generated / their counts     *)
@@ -36,6 +37,7 @@ MapsClause(tr, e) ==
     [] OTHER -> "ok"
 Clause(tr, e) ==
   CASE e.op = "provided" -> IF ObservedTerms(e.terms) = TrueTerms(tr.classes[e.c], e.n) THEN "ok" ELSE "FIXTURE:ProviderHandsOutTheTruth"
+    [] e.op = "kept" -> IF ObservedTerms(e.terms) = TrueTerms(tr.classes[e.c], e.n) THEN "ok" ELSE "RuleLeavesTheEnumerationsItWasGivenUnchanged"
     [] e.op = "formterms" -> IF ObservedTerms(e.terms) = TrueTerms(tr.classes[e.c], e.n) THEN "ok" ELSE "RuleFormCountsItsParentCorrectly"
     [] e.op = "reads" -> ReadClause(e)
     [] e.op = "objects" -> ObjectsClause(tr.classes[e.c], e)
